@@ -695,6 +695,7 @@ func checkDirFaults(c *mon.Case, d dirCase) {
 			})
 			c.Count("lookups_after_partial_listing", 1)
 		}
+		probes = append(probes, "")
 		for _, name := range probes {
 			path, found, err := w.HamtLookupPath(root, name)
 			if err != nil {
